@@ -331,6 +331,48 @@ fn late_poll_case(stranger: u8, gap_bits: i64, resume_bits: i64, obs: &mut Obs) 
     Ok(())
 }
 
+/// While the station supervises its own token pass, one late poll finds a whole batch: two token
+/// telegrams that carry its own address as source (the duplicate-address rule makes it withdraw)
+/// and one more telegram behind them.  Having withdrawn, it must not take a token (and not panic).
+fn burst_after_pass_case(third: u64, gap_bits: i64, obs: &mut Obs) -> CaseResult {
+    let mut w = new_world();
+    to_ring_idle(&mut w)?;
+    w.inject(&token(P, TS), &mut ());
+    // wait for the station's own pass to P
+    let mut seen = w.trace_len();
+    let mut passed_at: Option<i64> = None;
+    let t_end = w.now + w.bit_us(SLOT * 4);
+    while w.now < t_end && passed_at.is_none() {
+        w.step(5);
+        for (t, f) in w.frames_since(seen) {
+            if let Some(RefFrame::Token { da, sa }) = f {
+                if da == P && sa == TS {
+                    passed_at = Some((t.end_ns + 999) / 1000);
+                }
+            }
+        }
+        seen = w.trace_len();
+    }
+    let Some(end_us) = passed_at else { fail!("harness", "station did not pass the token on") };
+    // no polls from here on: the batch arrives inside the slot time
+    w.now = end_us + w.bit_us(40);
+    let third_bytes = match third {
+        0 => token(P, TS),
+        1 => status_req(TS, P),
+        _ => token(P, X),
+    };
+    for b in [token(TS, 7), token(TS, 7), third_bytes] {
+        w.bus.inject(ENV, w.now, &b);
+        w.now = w.last_end_us() + w.bit_us(gap_bits);
+    }
+    let idx = w.trace_len();
+    w.step(w.bit_us(5 * SLOT));
+    let used = w.frames_since(idx).iter().any(|(_, f)| matches!(f, Some(RefFrame::Token { sa, .. }) if *sa == TS));
+    ensure!(!used, "token-used-after-withdrawing", "two telegrams with the station's own address as source reached it while it supervised its token pass, followed by {:?}: it passed a token on afterwards (state {})", rc::decode_one(&match third { 0 => token(P, TS), 1 => status_req(TS, P), _ => token(P, X) }), w.state_name());
+    obs.label("batch-with-two-own-address-tokens-after-the-pass");
+    Ok(())
+}
+
 /// Application with a single request (SRD to #7) on its first turn.
 struct OneShot {
     armed: bool,
@@ -511,7 +553,7 @@ fn exhaustive(i: u64, depth: u32, obs: &mut Obs) -> CaseResult {
 pub fn property() -> Property {
     Property {
         id: "C11",
-        rule: "cases: one real station TS=5 (HSA 8, two-station ring with partner 6) against a scripted environment; ALL sequences of depth 3 (quick) / 4-5 (thorough) over a 17-symbol alphabet (tokens P->TS, X->TS, Y->TS, P->X, X->P, 200->TS, TS->P, 126->TS, 126->P, TS->TS; status request from P / X; status reply; SC; silence of Tslot/2, 1.5 Tslot, token-lost time-out) from two start states (listening; in-ring idle), random sequences up to length 40, and the supervision scenarios (successor silent / heard after the 1st, 2nd, 3rd pass, three kinds of heard telegram and three kinds of undecodable activity - noise, bad checksum, bad length repetition -, eight delays). History invariants with PS/NS read from inspect_token_ring() immediately before each offer: token from the registered predecessor is accepted, a first offer by a stranger is not, an immediately repeated offer is; a listening station never uses a token and initiates only its claim; nothing is initiated without the token; status requests to TS are answered exactly once; after the own pass: silence => identical token again after > Tslot, three in total, then the successor leaves the LAS and the token goes to the next station; heard => no repetition, successor kept; the same after a message cycle that ended in a time-out with the remains of a broken reply (timeout_then_pass), and a repeated offer found together with the first by one late poll is accepted (late_poll). Non-trivial = sequence contains a token offer to TS or starts in the ring; distinct by sequence.",
+        rule: "cases: one real station TS=5 (HSA 8, two-station ring with partner 6) against a scripted environment; ALL sequences of depth 3 (quick) / 4-5 (thorough) over a 17-symbol alphabet (tokens P->TS, X->TS, Y->TS, P->X, X->P, 200->TS, TS->P, 126->TS, 126->P, TS->TS; status request from P / X; status reply; SC; silence of Tslot/2, 1.5 Tslot, token-lost time-out) from two start states (listening; in-ring idle), random sequences up to length 40, and the supervision scenarios (successor silent / heard after the 1st, 2nd, 3rd pass, three kinds of heard telegram and three kinds of undecodable activity - noise, bad checksum, bad length repetition -, eight delays). History invariants with PS/NS read from inspect_token_ring() immediately before each offer: token from the registered predecessor is accepted, a first offer by a stranger is not, an immediately repeated offer is; a listening station never uses a token and initiates only its claim; nothing is initiated without the token; status requests to TS are answered exactly once; after the own pass: silence => identical token again after > Tslot, three in total, then the successor leaves the LAS and the token goes to the next station; heard => no repetition, successor kept; the same after a message cycle that ended in a time-out with the remains of a broken reply (timeout_then_pass), and a repeated offer found together with the first by one late poll is accepted (late_poll); a batch of two own-address tokens and a third telegram found by one late poll during the supervision makes the station withdraw without using a token or panicking (burst_after_pass). Non-trivial = sequence contains a token offer to TS or starts in the ring; distinct by sequence.",
         assumptions: vec![
             "formulated over observable ownership episodes (DESIGN 6, C11 i-v): an offer arriving while TS supervises its own pass counts as a first offer; the remembered stranger is forgotten when TS acted as owner; only one stranger is remembered; a station that saw its own address twice is Offline and has no obligations; 'heard' = a complete valid telegram polled before the slot expires",
             "the environment transmits only after 40 bit times of idle bus and the station is polled every 5 us (late_poll: one poll gap of a little more than a slot time; the telegrams found by one poll are taken in the order of their arrival, so the second of two offers found together is an offer 'a second time')",
@@ -545,6 +587,13 @@ pub fn property() -> Property {
                 obs.sample(|| json!({"stranger": stranger, "offers_apart_bits": gap, "polls_resume_after_bits": resume}));
                 late_poll_case(stranger, gap, resume, obs)
             }),
+            SubCheck::index("burst_after_pass", "one late poll during the supervision of the own pass finds two token telegrams with the own address as source and a third telegram (token to TS / status request to TS / token to a stranger; 34 or 60 bit times apart): no token is used afterwards, no panic", |i, obs| {
+                obs.nontrivial(i);
+                let third = ["token P->TS", "status request P->TS", "token P->X"][(i % 3) as usize];
+                let gap = [34i64, 60][((i / 3) % 2) as usize];
+                obs.sample(|| json!({"third_telegram": third, "gap_bits": gap}));
+                burst_after_pass_case(i % 3, [34i64, 60][((i / 3) % 2) as usize], obs)
+            }),
             SubCheck::index("timeout_then_pass", "own token pass right after a message cycle that ended in a time-out (no reply, or a reply that broke off after 1 / 3 / 5 / 7 / 12 bytes, 20 / 100 / 200 bit times after the request): successor silent or heard", |i, obs| {
                 let frag = [0usize, 1, 3, 5, 7, 12][(i % 6) as usize];
                 let delay = [20i64, 100, 200][((i / 6) % 3) as usize];
@@ -568,6 +617,7 @@ pub fn property() -> Property {
                 Step::Enumerate { kind: "supervision", count: 384 },
                 Step::Enumerate { kind: "timeout_then_pass", count: 36 },
                 Step::Enumerate { kind: "late_poll", count: 12 },
+                Step::Enumerate { kind: "burst_after_pass", count: 6 },
                 Step::Enumerate { kind: "supervision3", count: 4 },
                 Step::Enumerate { kind: "seq4", count: 2 * 17u64.pow(4) },
                 Step::Pbt { kind: "random", cases: 20_000, max_len: 48 },
@@ -576,6 +626,7 @@ pub fn property() -> Property {
                 Step::Enumerate { kind: "supervision", count: 384 },
                 Step::Enumerate { kind: "timeout_then_pass", count: 36 },
                 Step::Enumerate { kind: "late_poll", count: 12 },
+                Step::Enumerate { kind: "burst_after_pass", count: 6 },
                 Step::Enumerate { kind: "supervision3", count: 4 },
                 Step::Enumerate { kind: "seq5", count: 2 * 17u64.pow(5) },
                 Step::Pbt { kind: "random", cases: 60_000, max_len: 48 },
